@@ -635,16 +635,37 @@ func c13GenReq(t *rapid.T) c13Case {
 	case 1: // query strings
 		c.Kind = "query"
 		names := []string{"depth", "content", "fields", "fc.xfields", "with-defaults", "fc.range", "fc.max-node-count", "where", "filter", "bogus", ""}
-		vals := []string{"", "0", "-1", "1", "99999999999999999999", "x", "config", "all", "a/b", "a(b", "a)b", "((", ";;", "a;b;", "/", "l1!0-1", "l1!", "!", "l1!-1", "l1!1-0", "l1!a-b", "l1/l2!0-", "trim", "explicit", "report-all-tagged", "a=1", "a='", "a<", "=1", "%", "\x00", "a/b/c/d/e/f/g/h/i/j/k/l/m/n/o/p"}
+		vals := []string{"", "0", "-1", "1", "99999999999999999999", "x", "config", "all", "a/b", "a(b", "a)b", "((", ";;", "a;b;", "/", "l1!0-1", "l1!", "!", "l1!-1", "l1!1-0", "l1!a-b", "l1/l2!0-", "l1!-1-3", "l1!-1-", "l1!--1", "l1!1--3", "l1!-9223372036854775808-1", "l1!9223372036854775807-", "l1!1-2-3", "trim", "explicit", "report-all-tagged", "a=1", "a='", "a<", "=1", "%", "\x00", "a/b/c/d/e/f/g/h/i/j/k/l/m/n/o/p"}
 		// include real names from the schema
 		for _, d := range root.DataChildren() {
-			vals = append(vals, d.Name, d.Name+"/x", d.Name+"!0-0", d.Name+"=1", d.Name+">1")
+			vals = append(vals, d.Name, d.Name+"/x", d.Name+"!0-0", d.Name+"=1", d.Name+">1", d.Name+"!-1-3", d.Name+"!-1-", d.Name+"!-9223372036854775808-1", d.Name+"!5-2", d.Name+"!1-2-3")
 		}
 		var parts []string
 		for i := 0; i < rapid.IntRange(1, 3).Draw(t, "nparams"); i++ {
 			parts = append(parts, rapid.SampledFrom(names).Draw(t, "pname")+"="+url.QueryEscape(rapid.SampledFrom(vals).Draw(t, "pval")))
 		}
 		c.Text, c.Mutation = strings.Join(parts, rapid.SampledFrom([]string{"&", "&", ";", "&&"}).Draw(t, "sep")), "query"
+		// a quarter of the queries: a row window over a list that is there, with every shape of row expression
+		var listPaths []string
+		for _, p := range paths {
+			if n, _, _ := dm.Resolve(root, data, p); n.Kind == "list" && p[len(p)-1].Key == nil {
+				var names []string
+				for _, seg := range p {
+					names = append(names, seg.Name)
+				}
+				listPaths = append(listPaths, strings.Join(names, "/"))
+			}
+		}
+		if len(listPaths) > 0 && rapid.IntRange(0, 3).Draw(t, "row-window") == 0 {
+			rows := rapid.SampledFrom([]string{"0-1", "1-", "-1", "-1-3", "-1-", "--1", "1--3", "-9223372036854775808-1", "9223372036854775807-", "9223372036854775808-", "1-2-3", "5-2", "0-0", "", "-", "a-b", "1-b", "0x1-2", "1.5-2", " 1-2", "+1-+2"}).Draw(t, "rows")
+			v := rapid.SampledFrom(listPaths).Draw(t, "window-list") + "!" + rows
+			if rapid.Bool().Draw(t, "window-raw") {
+				c.Text = "fc.range=" + v
+			} else {
+				c.Text = "fc.range=" + url.QueryEscape(v)
+			}
+			c.Mutation = "row-window"
+		}
 		c.Entry = target
 		if n, _, _ := dm.Resolve(root, data, target); n.Kind == "list" && len(target) > 0 && target[len(target)-1].Key == nil {
 			c.Entry = nil
